@@ -169,7 +169,7 @@ def one_exec(tree, kind, path, link, with_state, single=None, pre=False):
                         ns0 = os.stat(pth).st_mtime_ns
                         with open(pth, "r+b") as fh:
                             fh.write(files[first])
-                        os.utime(pth, ns=(ns0 + 1000, ns0 + 1000))
+                        os.utime(pth, ns=(ns0 + 500, ns0 + 500))
                         want = dict(files)
                         want_listing = {rel: ref.md5(b) for rel, b in files.items()}
                     idx = ibuild(src, LFS)
